@@ -6,6 +6,7 @@ import Driver.RelHist
 import Driver.Export
 import Driver.Codec
 import Driver.IOSpec
+import Driver.IOSession
 import Driver.Capture
 import Driver.Backup
 import Driver.CalcSteps
@@ -24,6 +25,7 @@ def main (args : List String) : IO UInt32 := do
   | ["export"] => Driver.Export.main; return 0
   | ["codec"] => Driver.Codec.main; return 0
   | ["iospec"] => Driver.IOSpec.main; return 0
+  | ["iosession"] => Driver.IOSession.main; return 0
   | ["capture"] => Driver.Capture.main; return 0
   | ["backup"] => Driver.Backup.main; return 0
   | ["calcsteps"] => Driver.CalcSteps.main; return 0
